@@ -66,12 +66,28 @@ type Worker struct {
 }
 
 type tailBuffer struct {
-	mu  sync.Mutex
-	buf []byte
+	mu    sync.Mutex
+	buf   []byte
+	cause string // first "fatal error:" / "panic:" line seen (a goroutine dump pushes it out of the tail)
 }
 
 func (t *tailBuffer) Write(p []byte) (int, error) {
 	t.mu.Lock()
+	if t.cause == "" {
+		for _, key := range []string{"fatal error:", "panic:"} {
+			if i := bytes.Index(p, []byte(key)); i >= 0 && (i == 0 || p[i-1] == '\n') {
+				line := p[i:]
+				if j := bytes.IndexByte(line, '\n'); j >= 0 {
+					line = line[:j]
+				}
+				if len(line) > 300 {
+					line = line[:300]
+				}
+				t.cause = string(line)
+				break
+			}
+		}
+	}
 	t.buf = append(t.buf, p...)
 	if len(t.buf) > 16384 {
 		t.buf = t.buf[len(t.buf)-16384:]
@@ -83,6 +99,9 @@ func (t *tailBuffer) Write(p []byte) (int, error) {
 func (t *tailBuffer) String() string {
 	t.mu.Lock()
 	defer t.mu.Unlock()
+	if t.cause != "" && !bytes.Contains(t.buf, []byte(t.cause)) {
+		return t.cause + "\n[...]\n" + string(t.buf)
+	}
 	return string(t.buf)
 }
 
